@@ -5,4 +5,4 @@
    inductive types; no Extract Constant. Run coqc in the output directory. *)
 From Coq Require Import Extraction ExtrOcamlBasic ExtrOcamlString.
 From Qryn Require Import lib.Strs model.Sql model.SqlRender model.Logql model.LogqlPlan model.LogqlCases.
-Extraction "logqlplan.ml" log_sqls script_sqls analyze_m15.
+Extraction "logqlplan.ml" log_sqls script_sqls analyze_m15 tpl_probe.
